@@ -293,11 +293,16 @@ func incrementalPass(c *Ctx, chunk []job, sliced bool, noExt bool, perCheckMs in
 		sb.WriteString(d + "\n")
 	}
 	pos := 0
+	first := chunk[0].o.N
 	for _, j := range chunk {
 		for pos < j.o.N {
 			a := c.asserts[pos]
 			pos++
 			if sliced && (strings.Contains(a.term, "(forall ") || strings.Contains(a.term, "(exists ")) {
+				continue
+			}
+			// facts hidden behind a cut: a chunk never straddles a cut (chunkJobs), so visibility is that of its first member
+			if !c.visible(pos-1, first) && pos-1 < first {
 				continue
 			}
 			sb.WriteString("(assert " + a.term + ")\n")
@@ -341,6 +346,13 @@ func chunkJobs(js []job, n int) [][]job {
 		k := n
 		if len(js) < k {
 			k = len(js)
+		}
+		// a chunk does not straddle a cut (an index after which some earlier assertions are hidden)
+		for m := 1; m < k; m++ {
+			if js[0].c.cutBetween(js[m-1].o.N, js[m].o.N) {
+				k = m
+				break
+			}
 		}
 		out = append(out, js[:k])
 		js = js[k:]
